@@ -242,6 +242,19 @@ def run_opt(case):
     add_vars(p, o, case['vars'])
     add_ops(p, o, case['ops'])
     coords = case['coords']
+    tf = case.get('targets_from')
+    if tf is not None:
+        # calibrated scenario: the operand targets are the operand values at the variable vector `tf`
+        # (so the unconstrained optimum is exactly there); the lens is then put back to its start
+        x_start = [v.value for v in p.variables]
+        for v, x in zip(p.variables, tf):
+            v.update(float.fromhex(x))
+        p.update_optics()
+        for op in p.operands:
+            op.target = float(np.ravel(op.value)[0])
+        for v, x in zip(p.variables, x_start):
+            v.update(x)
+        p.update_optics()
     opt = None
     if not fe.startswith('compensator'):
         opt = globals()['L_' + fe](p)
